@@ -24,7 +24,7 @@ RULE = ("every graph (symmetric irreflexive relation) on 0..5 (quick) / 0..6 (th
         "enumeration plus random graphs on 7..12 positions (chains in shuffled order, stars, cliques, cycles, sparse and "
         "dense random), plus lists that hold an event at several positions (twins: every partition of <= 4 (quick) / <= 5 "
         "(thorough) positions into twin classes x every relation on the events incl. f(a, a); random ones with 1..3 repeats); "
-        "a size class of lists of 129..300 events with sparse relations touching positions >= 128 and >= 256 (3 quick / 12 "
+        "a size class of lists of 129..300 events with sparse relations touching positions >= 128 and >= 256 (3 quick / 8 "
         "thorough); every non-empty set of events without geometry on lists of <= 4 positions (random otherwise); "
         "the comparison function comes as plain function, lambda, partial, bound method, callable object and falsy callable "
         "object (every guise for lists of <= 3 (quick) / <= 4 (thorough) positions, random otherwise), also looks at the "
@@ -224,7 +224,7 @@ def _large_cases(rng, tier):
     """Size class: lists of 129..300 events with a very sparse relation (disjoint short chains) whose edges touch list
     positions >= 128 and >= 256 -- index arithmetic in narrow integer types shows only there.  O(n^2) comparison calls."""
     sizes = [129, rng.randrange(130, 256), rng.randrange(257, 301)] if tier == "quick" else \
-            [129, 130, 200, 255, 256, 257, 258, 300] + [rng.randrange(129, 301) for _ in range(4)]
+            [129, 130, 200, 256, 257, 300] + [rng.randrange(129, 301) for _ in range(2)]
     for n in sizes:
         hi = [a for a in (128, 129, 256, 257, n) if a <= n]         # 1-based positions 129.. = 0-based >= 128
         edges = [(1, 129)] if n == 129 else []
